@@ -22,7 +22,7 @@ pub fn reset_budget(b: u64) {
 pub fn evals() -> u64 {
     EVALS.with(|e| e.get())
 }
-fn tick() {
+pub fn tick() {
     let n = EVALS.with(|e| {
         e.set(e.get() + 1);
         e.get()
